@@ -280,7 +280,7 @@ QUERY_DENSE = dict(gen.DEFAULT_PROFILE, p_q=0.7, p_bf=0.14, p_sb=0.08, p_raise=0
 RICH_ARGS = dict(gen.DEFAULT_PROFILE, args=[0, 1, 1.0, True, False, None, 'x', '', [1, 2], (1, 2), [1.0, 2], {'k': 1},
                                            {'k': 1.0}, {1: 'a'}, {'1': 'a'}, {'a': 1, 'b': 2}, {'b': 2, 'a': 1},
                                            2 ** 70, -0.0, 0, [[]], [()], {'a': [1, (2,)]}, 'é', '\U0001F600'],
-                 kws=[{}, {}, {'k': 1}, {'k': True}, {'k': 1.0}, {'k': [1, (2,)]}, {'a': 1, 'b': 2}, {'b': 2, 'a': 1}, {'k': None}, {'k': 0}, {'k': False}],
+                 kws=[{}, {}, {'k': 1}, {'k': True}, {'k': 1.0}, {'k': [1, (2,)]}, {'a': 1, 'b': 2}, {'b': 2, 'a': 1}, {'k': None}, {'k': 0}, {'k': False}, {'j': None}, {'j': 'x'}, {'m': None, 'k': 1}],
                  p_sb=0.35, p_bf=0.2, p_q=0.25)
 RICH_RETS = dict(gen.DEFAULT_PROFILE, rets=['acc', 'const', 'const', 'const'])
 
@@ -411,64 +411,98 @@ def check_C15(tier):
 
 
 def wrong_argument_calls(rep):
-    """every wrong-typed argument position of build / build_versioned / clean on a tree with outputs:
-    TypeError (or the documented error), tree bit-identical, nothing called, no temp dir left"""
+    """every wrong-typed argument position of build / build_versioned / clean, in several states of the tree
+    (outputs in place; recorded outputs and created directories deleted by the user; an output replaced by a
+    directory; a foreign file in a created directory; no cache at all): TypeError (or the documented error),
+    tree bit-identical, nothing called, no temp dir left"""
     import shutil
     import tempfile
     fb = realrun.load_fb()
     FB = fb.FileBuilder
     bad = []
-    root = os.path.realpath(tempfile.mkdtemp(prefix='fbh_c15_', dir=realrun.SANDBOX_BASE))
-    priv = tempfile.mkdtemp(prefix='fbh_tmp_', dir=realrun.SANDBOX_BASE)
-    old = tempfile.tempdir
-    tempfile.tempdir = priv
-    try:
-        cache = os.path.join(root, 'cache.gz')
-        called = []
 
-        def good(b):
-            called.append(1)
-            b.build_file(os.path.join(root, 'o', 'x'), 'w', lambda bb, fn: open(fn, 'w').write('x') and None)
-        FB.build(cache, 'n', good)
-        calls = [
-            ('build name int', lambda: FB.build(cache, 5, good)),
-            ('build name None', lambda: FB.build(cache, None, good)),
-            ('build func not callable', lambda: FB.build(cache, 'n', 'notcallable')),
-            ('build cache path int', lambda: FB.build(5, 'n', good)),
-            ('build cache path None', lambda: FB.build(None, 'n', good)),
-            ('build_versioned versions list', lambda: FB.build_versioned(cache, 'n', [], good)),
-            ('build_versioned versions non-json', lambda: FB.build_versioned(cache, 'n', {'f': {1, 2}}, good)),
-            ('build_versioned versions None', lambda: FB.build_versioned(cache, 'n', None, good)),
-            ('build_versioned name bytes', lambda: FB.build_versioned(cache, b'n', {}, good)),
-            ('clean name int', lambda: FB.clean(cache, 5)),
-            ('clean cache path int', lambda: FB.clean(5, 'n')),
-            ('clean other name', lambda: FB.clean(cache, 'zzz')),
-            ('build other name', lambda: FB.build(cache, 'zzz', good)),
-            ('build empty name', lambda: FB.build(cache, '', good)),
-            ('clean empty name', lambda: FB.clean(cache, '')),
-            ('build_versioned empty name', lambda: FB.build_versioned(cache, '', {}, good)),
-        ]
-        for label, call in calls:
-            before = realrun.snapshot(root, '<none>')
-            del called[:]
-            try:
-                call()
-                bad.append({'call': label, 'problem': 'did not raise'})
-            except Exception:
-                pass
-            rep.count('evaluations')
-            rep.count('refused_calls')
-            after = realrun.snapshot(root, '<none>')
-            if before != after:
-                bad.append({'call': label, 'problem': 'tree changed', 'diff': [x for x in after if x not in before][:3]})
-            if called:
-                bad.append({'call': label, 'problem': 'user function was called'})
-            if os.listdir(priv):
-                bad.append({'call': label, 'problem': 'temporary directory left behind', 'left': os.listdir(priv)})
-    finally:
-        tempfile.tempdir = old
-        shutil.rmtree(root, ignore_errors=True)
-        shutil.rmtree(priv, ignore_errors=True)
+    def tamper_none(root):
+        pass
+
+    def tamper_deleted(root):
+        shutil.rmtree(os.path.join(root, 'o'))
+
+    def tamper_deleted_deep(root):
+        shutil.rmtree(os.path.join(root, 'p', 'q'))
+
+    def tamper_todir(root):
+        os.remove(os.path.join(root, 'o', 'x'))
+        os.mkdir(os.path.join(root, 'o', 'x'))
+
+    def tamper_foreign(root):
+        with open(os.path.join(root, 'o', 'foreign'), 'w') as fh:
+            fh.write('f')
+        os.remove(os.path.join(root, 'o', 'x'))
+
+    def tamper_nocache(root):
+        os.remove(os.path.join(root, 'cache.gz'))
+    for tamper in (tamper_none, tamper_deleted, tamper_deleted_deep, tamper_todir, tamper_foreign, tamper_nocache):
+        root = os.path.realpath(tempfile.mkdtemp(prefix='fbh_c15_', dir=realrun.SANDBOX_BASE))
+        priv = tempfile.mkdtemp(prefix='fbh_tmp_', dir=realrun.SANDBOX_BASE)
+        old = tempfile.tempdir
+        tempfile.tempdir = priv
+        try:
+            cache = os.path.join(root, 'cache.gz')
+            called = []
+
+            def good(b):
+                called.append(1)
+                b.build_file(os.path.join(root, 'o', 'x'), 'w', lambda bb, fn: open(fn, 'w').write('x') and None)
+                b.build_file(os.path.join(root, 'p', 'q', 'y'), 'w', lambda bb, fn: open(fn, 'w').write('y') and None)
+            FB.build(cache, 'n', good)
+            tamper(root)
+            calls = [
+                ('build name int', lambda: FB.build(cache, 5, good)),
+                ('build name None', lambda: FB.build(cache, None, good)),
+                ('build func not callable', lambda: FB.build(cache, 'n', 'notcallable')),
+                ('build func None', lambda: FB.build(cache, 'n', None)),
+                ('build_versioned func not callable', lambda: FB.build_versioned(cache, 'n', {}, 5)),
+                ('build cache path int', lambda: FB.build(5, 'n', good)),
+                ('build cache path None', lambda: FB.build(None, 'n', good)),
+                ('build_versioned versions list', lambda: FB.build_versioned(cache, 'n', [], good)),
+                ('build_versioned versions non-json', lambda: FB.build_versioned(cache, 'n', {'f': {1, 2}}, good)),
+                ('build_versioned versions None', lambda: FB.build_versioned(cache, 'n', None, good)),
+                ('build_versioned name bytes', lambda: FB.build_versioned(cache, b'n', {}, good)),
+                ('clean name int', lambda: FB.clean(cache, 5)),
+                ('clean cache path int', lambda: FB.clean(5, 'n')),
+            ]
+            if tamper is not tamper_nocache:
+                # with a cache file present these are refused as well (another build's name)
+                calls += [
+                    ('clean other name', lambda: FB.clean(cache, 'zzz')),
+                    ('build other name', lambda: FB.build(cache, 'zzz', good)),
+                    ('build empty name', lambda: FB.build(cache, '', good)),
+                    ('clean empty name', lambda: FB.clean(cache, '')),
+                    ('build_versioned empty name', lambda: FB.build_versioned(cache, '', {}, good)),
+                ]
+            for label, call in calls:
+                label = '%s [%s]' % (label, tamper.__name__[7:])
+                before = realrun.snapshot(root, '<none>')
+                del called[:]
+                try:
+                    call()
+                    bad.append({'call': label, 'problem': 'did not raise'})
+                except Exception:
+                    pass
+                rep.count('evaluations')
+                rep.count('refused_calls')
+                after = realrun.snapshot(root, '<none>')
+                if before != after:
+                    bad.append({'call': label, 'problem': 'tree changed',
+                                'diff': [x for x in after if x not in before][:3] + [x for x in before if x not in after][:3]})
+                if called:
+                    bad.append({'call': label, 'problem': 'user function was called'})
+                if os.listdir(priv):
+                    bad.append({'call': label, 'problem': 'temporary directory left behind', 'left': os.listdir(priv)})
+        finally:
+            tempfile.tempdir = old
+            shutil.rmtree(root, ignore_errors=True)
+            shutil.rmtree(priv, ignore_errors=True)
     return bad
 
 
